@@ -51,7 +51,8 @@ var acceptSpec = map[string][]string{
 	"(*Point).SetExtendedCoordinates": {"PRED[isOnCurve#0 == false]"},
 	"(*Scalar).SetCanonicalBytes":     {"LEN[len(x) != 32]", "PRED[isReduced#0 == false]"},
 	"(*Scalar).SetUniformBytes":       {"LEN[len(x) != 64]"},
-	"(*Scalar).SetBytesWithClamping":  {"LEN[len(x) != 32]", "via (*Scalar).SetUniformBytes: LEN[len(x) != 64]"},
+	// the forwarded class is vacuous (the forwarded buffer is always 64 bytes): optional
+	"(*Scalar).SetBytesWithClamping":  {"LEN[len(x) != 32]", "?via (*Scalar).SetUniformBytes: LEN[len(x) != 64]"},
 	"field.(*Element).SetBytes":       {"LEN[len(x) != 32]"},
 	"field.(*Element).SetWideBytes":   {"LEN[len(x) != 64]"},
 }
@@ -202,7 +203,7 @@ func init() {
 		Assumptions: []string{"without unsafe two *T are equal or disjoint unless one points into the other's object; interior pointers of Point/Scalar/Element cannot be obtained outside the packages (R-FRESH, checked in the same run)"},
 		TrustedBase: trustedCommon,
 		Exceptions:  append(append([]report.Exception{}, swapExceptions...), swapRecvRO),
-		Floors:      []report.Floor{{Rule: "R-ALIAS", Min: 2 * 95}, {Rule: "R-RO", Min: 2 * 55}, {Rule: "R-FRESH", Min: 2 * 45}},
+		Floors:      []report.Floor{{Rule: "R-ALIAS", Min: 114}, {Rule: "R-RO", Min: 66}, {Rule: "R-FRESH", Min: 54}},
 		Build: func(c *Ctx) {
 			for _, cfg := range c.Configs() {
 				a := c.Eff(cfg)
@@ -212,6 +213,10 @@ func init() {
 				c.addAll(a.RAlias())
 				c.addAll(a.RReadOnly())
 				c.addAll(a.RFresh())
+				// the Swap exception is justified by evaluation, not by assumption
+				if res := c.limbInvariant(cfg); res != nil && len(res.problems) == 0 {
+					c.ruleSelfSwap(cfg, res.box)
+				}
 			}
 		},
 	})
@@ -220,7 +225,7 @@ func init() {
 		ID: "C14", Level: "proof", Technique: "static effect analysis: per-return-site provenance and receiver-may-have-been-written bit (R-ATOMIC), read-only inputs (R-RO)",
 		Explanation: "For the seven fallible setters (computed as methods with receiver *T and results (*T, error)): every error site returns nil and no write to the receiver lies on any CFG path to it (forwarded call tuples are resolved through the callee's sites); every success site returns exactly the receiver; no setter writes its input. The property is structural, so the rule is the property.",
 		TrustedBase: trustedCommon,
-		Floors:      []report.Floor{{Rule: "R-ATOMIC", Min: 2 * 24}, {Rule: "R-RO", Min: 2 * 10}},
+		Floors:      []report.Floor{{Rule: "R-ATOMIC", Min: 28}, {Rule: "R-RO", Min: 12}},
 		Build: func(c *Ctx) {
 			for _, cfg := range c.Configs() {
 				a := c.Eff(cfg)
@@ -239,7 +244,7 @@ func init() {
 		Explanation: "Race freedom by effect discipline: package-level variables are written only by the package initialisers; the two lazily built tables are written only inside the function literal of their own sync.Once and every other access is dominated by the Do call (or by a call of the accessor that always runs it); exported functions write only their receiver; no exported function returns package state. With no write to any location shared between two calls other than under sync.Once, concurrent calls on disjoint receivers have no conflicting access and compute what they compute sequentially.",
 		Assumptions: []string{"sync.Once: completion of f happens-before every Do return (Go memory model)"},
 		TrustedBase: append([]string{"sync.Once"}, trustedCommon...),
-		Floors:      []report.Floor{{Rule: "R-GLOBAL", Min: 2 * 130}, {Rule: "R-RO", Min: 2 * 55}},
+		Floors:      []report.Floor{{Rule: "R-GLOBAL", Min: 156}, {Rule: "R-RO", Min: 66}},
 		Build: func(c *Ctx) {
 			for _, cfg := range c.Configs() {
 				a := c.Eff(cfg)
@@ -259,7 +264,7 @@ func init() {
 		Explanation: "Every pointer/slice result of every exported function is a fresh object, the receiver itself, or nil — never a package-level variable, a table, an interior pointer or a shared buffer; no call changes package state after initialisation, so no history is remembered; no result depends on a receiver's prior content.",
 		TrustedBase: trustedCommon,
 		Exceptions:  []report.Exception{swapInit},
-		Floors:      []report.Floor{{Rule: "R-FRESH", Min: 2 * 45}, {Rule: "R-GLOBAL", Min: 2 * 130}, {Rule: "R-INIT", Min: 2 * 30}},
+		Floors:      []report.Floor{{Rule: "R-FRESH", Min: 54}, {Rule: "R-GLOBAL", Min: 156}, {Rule: "R-INIT", Min: 36}},
 		Build: func(c *Ctx) {
 			for _, cfg := range c.Configs() {
 				a := c.Eff(cfg)
@@ -278,7 +283,7 @@ func init() {
 		ID: "C15", Level: "proof", Technique: "dominance and control-dependence rules over go/ssa: guard-dominates-read (G-INIT), structure of the guard itself (G-GUARD), length check (G-LEN), no guard on pure receivers (G-PURE)",
 		Explanation: "For every exported operation and every Point-typed input position (parameters, receivers whose incoming value is read, and the elements of points slices): every read of the position is dominated by a checkInitialized call covering it (or happens inside a callee that guards first); checkInitialized itself visits every element and panics exactly on x == zero ∧ y == zero; both multi-scalar routines compare the two lengths and panic before touching either slice; no guard is applied to a pure receiver.",
 		TrustedBase: trustedCommon,
-		Floors:      []report.Floor{{Rule: "G-INIT", Min: 2 * 16}, {Rule: "G-PURE", Min: 2 * 10}, {Rule: "G-GUARD", Min: 2}, {Rule: "G-LEN", Min: 4}},
+		Floors:      []report.Floor{{Rule: "G-INIT", Min: 19}, {Rule: "G-PURE", Min: 12}, {Rule: "G-GUARD", Min: 1}, {Rule: "G-LEN", Min: 2}},
 		Build: func(c *Ctx) {
 			for _, cfg := range c.Configs() {
 				g := c.Guards(cfg)
@@ -305,7 +310,7 @@ func init() {
 			{Key: "CT-BRANCH/isReduced/", Prefix: true, Reason: "isReduced is the validity predicate of the canonical scalar decoder: validity decision of a decoder (exempt by the property); its only caller is SetCanonicalBytes (asserted)"},
 			{Key: "CT-BRANCH/(*Scalar).SetCanonicalBytes/isReduced()", Reason: "validity decision of a decoder (exempt by the property)"},
 		},
-		Floors: []report.Floor{{Rule: "CT-BRANCH", Min: 2 * 50}, {Rule: "CT-INDEX", Min: 2 * 35}, {Rule: "CT-CALL", Min: 2 * 250}, {Rule: "CT-ASM", Min: 2}},
+		Floors: []report.Floor{{Rule: "CT-BRANCH", Min: 60}, {Rule: "CT-INDEX", Min: 42}, {Rule: "CT-CALL", Min: 300}, {Rule: "CT-ASM", Min: 1}},
 		Build: func(c *Ctx) {
 			for _, cfg := range c.Configs() {
 				t := c.Taint(cfg)
